@@ -857,7 +857,8 @@ def _initialize_aggregation(
         agg.name in ["nanmin", "nanmax"] and min_count == 0
     ):
         min_count = 1
-        agg.fill_value["user"] = agg.fill_value["user"] or agg.fill_value[agg.name]
+        if agg.fill_value["user"] is None:
+            agg.fill_value["user"] = agg.fill_value[agg.name]
 
     if min_count > 0:
         agg.min_count = min_count
